@@ -45,11 +45,12 @@ namespace glm
 			detail::float_t<T> const a(x[i]);
 			detail::float_t<T> const b(y[i]);
 
-			// Different signs means they do not match.
+			// Different signs: the values are separated by zero, +0 and -0 being the same value.
 			if(a.negative() != b.negative())
 			{
-				// Check for equality to make sure +0==-0
-				Result[i] = a.mantissa() == b.mantissa() && a.exponent() == b.exponent();
+				typename detail::float_t<T>::int_type const MagA = a.i & std::numeric_limits<typename detail::float_t<T>::int_type>::max();
+				typename detail::float_t<T>::int_type const MagB = b.i & std::numeric_limits<typename detail::float_t<T>::int_type>::max();
+				Result[i] = MagA <= MaxULPs[i] && MagB <= MaxULPs[i] - MagA;
 			}
 			else
 			{
